@@ -396,6 +396,23 @@ func (h *hashChild) handle(line []byte) any {
 			mu.Unlock()
 		}
 		r := <-resc
+		if s.Trace && rep == 0 {
+			// the producer and the closer log `jobs.closed` / `results.closed` after the fact: wait for them (bounded)
+			for t := 0; t < 200; t++ {
+				mu.Lock()
+				seen := 0
+				for _, e := range events {
+					if e.Ev == "jobs.closed" || e.Ev == "results.closed" {
+						seen++
+					}
+				}
+				mu.Unlock()
+				if seen >= 2 {
+					break
+				}
+				time.Sleep(500 * time.Microsecond)
+			}
+		}
 		setHook(nil)
 		o := hashOut{}
 		switch {
@@ -424,8 +441,6 @@ func (h *hashChild) handle(line []byte) any {
 			rep = s.Reps
 		}
 		if s.Trace && rep == 0 {
-			// give the helper goroutines a moment to log their last events
-			time.Sleep(2 * time.Millisecond)
 			mu.Lock()
 			rec.Trace = append([]hookEv{}, events...)
 			mu.Unlock()
